@@ -125,6 +125,47 @@ def find_memos(prog, cls, own_only=True):
                 m_ = Memo(fn, hit[0], iff, region, "effect-skip", False)
                 m_.flag_attrs = set(hit)
                 out.append(m_)
+        # (D) "done already" switch: `if self.F: return` at the top, the work below transforms the state of self and
+        # ends by setting self.F = True.  Whoever rebuilds the state the work starts from has to clear the switch.
+        for iff in [n for n in fn.node.body if isinstance(n, ast.If)]:
+            if not (len(iff.body) == 1 and isinstance(iff.body[0], ast.Return) and iff.body[0].value is None and not iff.orelse):
+                continue
+            t_ = iff.test
+            flag = _self_attr(t_)
+            if flag is None or flag not in written:
+                continue
+            sets = [n for n in walk_no_nested(fn.node) if isinstance(n, ast.Assign) and any(_self_attr(x) == flag for x in n.targets)]
+            if sets and all(isinstance(n.value, ast.Constant) and n.value.value is True for n in sets):
+                region = fn.node.body[fn.node.body.index(iff) + 1:]
+                m_ = Memo(fn, flag, iff, region, "effect-skip", False)
+                m_.flag_attrs = {flag}
+                m_.switch = True
+                out.append(m_)
+        # (E) flag-guarded fill through a helper: `if not self.F: self.helper()` where the helper computes attributes of
+        # self and ends with self.F = True; the stored attributes are used afterwards
+        for iff in [n for n in walk_no_nested(fn.node) if isinstance(n, ast.If)]:
+            t_ = iff.test
+            if not (isinstance(t_, ast.UnaryOp) and isinstance(t_.op, ast.Not)):
+                continue
+            flag = _self_attr(t_.operand)
+            if flag is None or iff.orelse or len(iff.body) != 1:
+                continue
+            c_ = iff.body[0].value if isinstance(iff.body[0], ast.Expr) else None
+            if not (isinstance(c_, ast.Call) and isinstance(c_.func, ast.Attribute) and isinstance(c_.func.value, ast.Name)
+                    and c_.func.value.id == "self"):
+                continue
+            helper = methods_all.get(demangle(fn, c_.func.attr))
+            if helper is None:
+                continue
+            hw = attrs_written(helper.node)
+            hsets = [n for n in walk_no_nested(helper.node) if isinstance(n, ast.Assign) and any(_self_attr(x) == flag for x in n.targets)]
+            computed = [a for a, node in hw.items() if a != flag and isinstance(node, ast.Assign) and not isinstance(node.value, ast.Constant)]
+            if hsets and all(isinstance(n.value, ast.Constant) and n.value.value is True for n in hsets) and computed:
+                m_ = Memo(fn, flag, iff, list(helper.node.body), "lazy-fill", True)
+                m_.flag_attrs = {flag}
+                m_.helper = helper
+                m_.stored = set(computed)
+                out.append(m_)
         if not written:
             continue
         for iff in [n for n in walk_no_nested(fn.node) if isinstance(n, ast.If)]:
@@ -250,6 +291,12 @@ def region_inputs(prog, cls, memo, depth=3):
                 if a is not None and (not isinstance(x, ast.Attribute) or isinstance(x.ctx, ast.Load)):
                     if a in methods and not isinstance(methods[a].node, ast.FunctionDef):
                         continue
+                    # the base of a plain element store is written, not read
+                    y_, p_ = x, pm.get(x)
+                    while isinstance(p_, ast.Subscript) and p_.value is y_:
+                        y_, p_ = p_, pm.get(p_)
+                    if y_ is not x and isinstance(p_, ast.Assign) and any(t_ is y_ for t_ in p_.targets):
+                        continue
                     attrs.add(a)
                     if a in managed_u and not unitflow.in_int_context(pm, x):
                         units = True
@@ -267,8 +314,8 @@ def region_inputs(prog, cls, memo, depth=3):
                         if tgt in methods and tgt not in seen and d > 0:
                             seen.add(tgt)
                             scan(methods[tgt].node.body, methods[tgt], d - 1, False)
-    scan(memo.region, memo.func, depth, True)
-    if memo.kind == "lazy-fill":
+    scan(memo.region, getattr(memo, "helper", None) or memo.func, depth, getattr(memo, "helper", None) is None)
+    if memo.kind == "lazy-fill" and getattr(memo, "helper", None) is None:
         # locals computed before the guard feed the computation: backward slice over the names the region loads
         need = {x.id for st in memo.region for x in ast.walk(st) if isinstance(x, ast.Name) and isinstance(x.ctx, ast.Load)}
         pre = [st for st in walk_no_nested(memo.func.node) if isinstance(st, (ast.Assign, ast.AugAssign))
@@ -311,12 +358,15 @@ def _alias(a):
     return a[1:] if a.startswith("_") and not a.startswith("__") else a
 
 
-def check_class(run, rid, prog, cls, what, known_ok=()):
-    """obligations for every memo found in the methods the class defines; returns the memos"""
+def check_class(run, rid, prog, cls, what, known_ok=(), subclasses=None):
+    """obligations for every memo found in the methods the class defines; returns the memos.
+    subclasses: names of the subclasses whose methods count as writers (None: all subclasses)"""
     memos = find_memos(prog, cls)
     methods = _class_methods(prog, cls)
     # subclasses may write the inputs too
     for sub in prog.all_classes():
+        if subclasses is not None and sub.name not in subclasses:
+            continue
         if sub is not cls and cls in [x for x in prog.mro(sub) if x is not None]:
             for nme, fn in sub.methods.items():
                 methods.setdefault("%s.%s" % (sub.name, nme), fn)
@@ -332,6 +382,9 @@ def check_class(run, rid, prog, cls, what, known_ok=()):
         if m.kind == "effect-skip":
             flags = sorted(getattr(m, "flag_attrs", {m.attr}))
             lead = "%s returns at once when %s (nothing is recomputed)" % (m.func.short, norm(m.guard.test)[:60])
+        elif getattr(m, "helper", None) is not None:
+            lead = "%s computes %s once (%s, guarded by self.%s) and uses the stored values on later calls" % (
+                m.func.short, sorted("self." + a for a in m.stored)[:3], m.helper.short, m.attr)
         else:
             lead = "%s keeps its result in self.%s and hands the stored value out on later calls" % (m.func.short, m.attr)
         # params
@@ -343,13 +396,25 @@ def check_class(run, rid, prog, cls, what, known_ok=()):
         # invalidation
         stale = []
         inputs = {_alias(a) for a in attrs} - {_alias(m.attr)} - {_alias(a) for a in guard_attrs if a != m.attr and _is_key(m, a)}
+        if getattr(m, "switch", False):
+            # a "done already" switch guards a transformation of the object's own state: the state it starts from is what
+            # the work both reads and rewrites; whoever rebuilds that state has to clear the switch
+            rewritten = {_alias(a) for a in _transitive_writes(methods, m.func, m.region)}
+            inputs &= rewritten
         for nme, fn in sorted(methods.items()):
             if fn is m.func or fn.name in SKIP_METHODS:
                 continue
-            w = attrs_written(fn.node)
+            w = dict(attrs_written(fn.node))
             touched = sorted({a for a in w if _alias(a) in inputs})
+            if touched:
+                # resets done by the methods of self it calls (hooks) count as its own
+                for a_, v_ in _transitive_writes(methods, fn, fn.node.body).items():
+                    w.setdefault(a_, v_)
             flags = getattr(m, "flag_attrs", set())
-            if touched and m.attr not in w and not (flags & set(w)) and not any(_is_key(m, k) and k in w for k in guard_attrs):
+            # a writer that also rewrites the stored values keeps them in step with what it changed
+            stored = getattr(m, "stored", set())
+            if touched and m.attr not in w and not (flags & set(w)) and not (stored & set(w)) \
+                    and not any(_is_key(m, k) and k in w for k in guard_attrs):
                 stale.append("%s writes self.%s" % (fn.short, touched[0]))
         run.obligation(rid, m.func.short, not stale, key=key + ":invalidate",
                        message="%s; the computation reads %s, and %s without resetting it: the next call returns the "
@@ -368,7 +433,7 @@ def check_class(run, rid, prog, cls, what, known_ok=()):
                                "stored value is used unchanged in any other basis (%s)" % (lead, what),
                        loc=m.func.loc(m.guard), sample={"memo": m.attr, "basis_dependent": basis})
         # effects skipped on objects other than self
-        if m.kind == "effect-skip":
+        if m.kind == "effect-skip" and not getattr(m, "switch", False):
             foreign = _foreign_effects(m)
             run.obligation(rid, m.func.short, not foreign, key=key + ":skip",
                            message="%s returns early when its argument equals self.%s and skips %s: these objects can be "
